@@ -146,6 +146,8 @@ def emit_l(src, cfg):
         hdr.append("%option " + c["extra_opts"])
     if c.get("useread"):
         hdr.append("%option read")
+    if c.get("yylmax"):
+        hdr.append("%%option yylmax=%d" % c["yylmax"])      # capacity of the %array yytext
     names = sc_names(src)
     for i, s in enumerate(src["scs"]):
         if i == 0: continue
@@ -164,7 +166,6 @@ def emit_l(src, cfg):
     for f in ("reject", "yymore", "stack", "yylineno", "array", "userread", "userwrap", "heap", "useread"):
         if c[f] and c[f] != "no": out.append("#define VF_%s 1" % f.upper())
     out.append("#define VF_FLAVOUR_%s 1" % c["flavour"].upper())
-    if c.get("yylmax"): out.append("#define YYLMAX %d" % c["yylmax"])
     out.append(top)
     out.append("%}")
     out += render_defs(src, c["posix"])
